@@ -40,6 +40,7 @@ def check(ctx, F):
     _FN["F"] = F
     check_iterators(ctx, F)
     check_reset(ctx, F)
+    check_fresh_slots(ctx, F)
     check_reset_plan_data(ctx, F)
     check_clear_statuses(ctx, F)
     if not any(b["name"] == "linkTask" and b["inst"] for b in F.bodies.values()):
@@ -379,6 +380,36 @@ def check_reset(ctx, F):
                 elif init is not None and _val(assigned[n]) != _val(init):
                     ctx.violation("C07.reset", site + "/" + n, "%s (%s)" % (site, F.floc(fid)),
                                   "%s resets `%s` to %s, its initial value is %s" % (site, n, assigned[n], init), {})
+
+
+def check_fresh_slots(ctx, F):
+    """clear() resets the scalar bookkeeping only and leaves the item array as it was (C07.reset), so after a clear every slot holds stale links:
+    emplace() may *decide* (branch) only on the bookkeeping fields clear() resets, never on the content of a slot it has not written yet -
+    the recycle / grow / last decision is `_vacantHead != _vacantTail`, `_last < CAPACITY - 1`, not `item.next != INVALID`"""
+    for cls in ("TaskListT", "DynamicArrayT"):
+        reset = None
+        for fid, b in F.bodies.items():
+            if b["inst"] and b.get("cls") == cls and b["name"] == "clear":
+                reset = {strip(x["lhs"]).get("n") for x in walk(b["body"]) if x.get("k") == "asg" and strip(x["lhs"]).get("k") == "mem"}
+        if not reset:
+            continue
+        done = set()
+        for fid, b in F.bodies.items():
+            if not b["inst"] or b.get("cls") != cls or b["name"] != "emplace" or b.get("pat") in done:
+                continue
+            done.add(b.get("pat"))
+            site = "%s::emplace" % cls
+            bad = None
+            conds = [x["c"] for x in walk(b["body"]) if x.get("k") in ("if", "cond", "while", "for") and x.get("c") is not None]
+            for c in conds:
+                for m in walk(c):
+                    if m.get("k") == "mem" and m.get("n") and m.get("n") not in reset and not m.get("n", "").isupper():
+                        bad = bad or "`%s` (reads `%s`, which clear() does not reset)" % (_expr_txt(c), m.get("n"))
+            ctx.instance("C07.reset", site + "/decisions", {"function": site, "loc": F.floc(fid), "conditions": [_expr_txt(c) for c in conds], "reset_by_clear": sorted(reset)})
+            if bad:
+                ctx.violation("C07.reset", site + "/decisions", "%s (%s)" % (site, F.floc(fid)),
+                              "emplace() branches on %s: after clear() the slots still hold the links of the previous use, so a slot is handed out twice "
+                              "or a stale chain is followed" % bad, {})
 
 
 def check_clear_statuses(ctx, F, rule="C07.clear"):
